@@ -8,16 +8,15 @@ Open Scope list_scope.
 Theorem paging_lex : forall before todo vo vo' ds,
   compile_disjs before vo [] todo = (vo', ds) ->
   forall vf ps binds, pfx vo' vf -> bind vf ps = Some binds ->
-    (forall ko n, In ko todo -> snd ko = OVar n -> var_ok vf n) ->
     forall r out kval ct,
       (forall k, scanon (sx_eval binds r out (ref_sx (ok_ref k))) = vcanon (kval k)) ->
       Forall2 (fun (ko : okey * operand) c => operand_value ps (snd ko) = Some c) todo ct ->
       is_true (fold_right (fun d acc => tv_or (disj_eval binds r out d) acc) (Some false) ds) =
       vlex before (trip kval todo ct).
 Proof.
-  intros before todo vo vo' ds H vf ps binds Hp Hb Hok r out kval ct Hk Hct.
+  intros before todo vo vo' ds H vf ps binds Hp Hb r out kval ct Hk Hct.
   destruct (compile_disjs_sem _ _ _ _ _ _ H) as [_ Hs].
-  rewrite (Hs vf ps binds Hp Hb Hok r out kval [] ct Hk (Forall2_nil _) Hct). reflexivity.
+  rewrite (Hs vf ps binds Hp Hb r out kval [] ct Hk (Forall2_nil _) Hct). reflexivity.
 Qed.
 
 (* ... which is the reference order's "strictly after / before the cursor" when no key and no cursor value is null *)
@@ -45,10 +44,9 @@ Proof.
   intros m rows q ps n fuel Hwf Hn Hf Hk. rewrite spec_run_pages.
   unfold known_C05 in Hk.
   apply cls_nil in Hk. destruct Hk as [K1 Hk]. apply cls_nil in Hk. destruct Hk as [K2 Hk].
-  apply cls_nil in Hk. destruct Hk as [K3 Hk]. apply cls_nil in Hk. destruct Hk as [K5 Hk].
-  apply cls_nil in Hk. destruct Hk as [K6 K8]. apply cls_nil1 in K8.
-  apply orb_false_elim in K1. destruct K1 as [K1a K1b]. apply orb_false_elim in K5. destruct K5 as [K5a K5b].
-  destruct (pages_complete m rows q ps n Hwf Hn K1a K1b K2 K3 K5a K5b K6 K8 fuel Hf) as (pgs & full & Hp & He & Hc).
+  apply cls_nil in Hk. destruct Hk as [K3 K6]. apply cls_nil1 in K6.
+  apply orb_false_elim in K1. destruct K1 as [K1a K1b].
+  destruct (pages_complete m rows q ps n Hwf Hn K1a K1b K2 K3 K6 fuel Hf) as (pgs & full & Hp & He & Hc).
   rewrite Hp, He. cbn [fst snd]. rewrite Hc. apply answer_ok_refl.
 Qed.
 
@@ -59,10 +57,9 @@ Theorem paging_exactly_once : forall m rows q ps n fuel,
 Proof.
   intros m rows q ps n fuel Hwf Hn Hf Hk. unfold known_C05 in Hk.
   apply cls_nil in Hk. destruct Hk as [K1 Hk]. apply cls_nil in Hk. destruct Hk as [K2 Hk].
-  apply cls_nil in Hk. destruct Hk as [K3 Hk]. apply cls_nil in Hk. destruct Hk as [K5 Hk].
-  apply cls_nil in Hk. destruct Hk as [K6 K8]. apply cls_nil1 in K8.
-  apply orb_false_elim in K1. destruct K1 as [K1a K1b]. apply orb_false_elim in K5. destruct K5 as [K5a K5b].
-  exact (pages_complete m rows q ps n Hwf Hn K1a K1b K2 K3 K5a K5b K6 K8 fuel Hf).
+  apply cls_nil in Hk. destruct Hk as [K3 K6]. apply cls_nil1 in K6.
+  apply orb_false_elim in K1. destruct K1 as [K1a K1b].
+  exact (pages_complete m rows q ps n Hwf Hn K1a K1b K2 K3 K6 fuel Hf).
 Qed.
 
 (* the property as stated (no side conditions) is refuted on the faithful model; one closed witness per class *)
@@ -76,3 +73,25 @@ Proof.
   intros H. specialize (H w_K1_ties). destruct w_K1_ties_refuted as [Hr _]. rewrite H in Hr. discriminate.
   unfold w_K1_ties. split. vm_compute. reflexivity. split. reflexivity. cbn [List.length]. lia.
 Qed.
+
+(* ---------- the classes repaired in /repo, at full strength ---------- *)
+(* e64e320: the slot written for a variable always carries the variable's value, whatever literals were given
+   slots before it *)
+Theorem variable_slot_holds : forall vo n vo' i, add_param vo n false = (vo', i) ->
+  forall vf ps binds v, pfx vo' vf -> bind vf ps = Some binds -> lookup n ps = Some v ->
+  nth (pred i) binds SNull = to_sql v.
+Proof. intros vo n vo' i H. apply (add_param_var vo n vo' i H). Qed.
+
+(* 43340e7: OFFSET is never written without LIMIT *)
+Theorem offset_needs_limit_holds : forall vo q vo' lim off, compile_limit vo q = (vo', lim, off) -> off <> None -> lim <> None.
+Proof.
+  intros vo q vo' lim off H Ho. unfold compile_limit in H.
+  destruct (limit_sx vo (q_first q)) as [vo1 lim1]. destruct (q_skip q) as [so|].
+  - destruct (limit_sx vo1 so) as [vo2 off1]. injection H as _ <- _. destruct lim1; discriminate.
+  - injection H as _ _ <-. congruence.
+Qed.
+
+(* 936f709: the default compared in the WHEN of a filter is the field's default, whatever its text *)
+Theorem filter_default_bound_holds : forall vo d vo' dx, default_sx vo d = (vo', dx) ->
+  forall vf ps binds r out, pfx vo' vf -> bind vf ps = Some binds -> scanon (sx_eval binds r out dx) = vcanon d.
+Proof. intros vo d vo' dx H. apply (default_sx_sem vo d vo' dx H). Qed.
